@@ -369,6 +369,76 @@ add({"name": "decode_mfm_track", "file": "dfs/track_mfm.cc",
                (r"(while \(bits_avail\))", r"\1 MFM_DECODE_LOOP_CONTRACT", 1)],
      "dropped": ["verbose diagnostics (std::cerr, hexdump)", "error strings", "the result vector itself: each push_back is checked by the monitor"]})
 
+# ---- track_fm.cc (C06 first sentence, FM half) -------------------------------------------------------------------------
+VERBOSE_NESTED = (r"if \(verbose\)\s*\{(?:[^{}]|\{[^{}]*\})*\}", "/* verbose diagnostics dropped */")
+add({"name": "fm_read_byte", "file": "dfs/track_fm.cc",
+     "anchor": r"read_byte\(const Track::BitStream& bits, size_t& start\)",
+     "sig": "static struct opt_cd fm_read_byte(const struct BitStream *bits, size_t *start_)",
+     "pre": "#define start (*start_)\n", "post": "#undef start\n",
+     "rules": [(r"bits\.size\(\)", "BitStream_size(bits)", ">=1"), (r"bits\.getbit\(", "BitStream_getbit(bits, ", ">=2"),
+               (r"return std::nullopt;", "{ struct opt_cd none_; none_.has = 0; none_.first = 0; none_.second = 0; return none_; }", ">=1"),
+               (r"return std::make_pair\(static_cast<unsigned char>\(([^()]*)\),\s*static_cast<unsigned char>\(([^()]*)\)\);",
+                r"{ struct opt_cd some_; some_.has = 1; some_.first = (unsigned char)(\1); some_.second = (unsigned char)(\2); return some_; }", 1),
+               (r"(for \(int bitnum = 0; bitnum < 8; \+\+bitnum\))", r"\1 FM_BYTE_LOOP_CONTRACT", 1)]})
+add({"name": "copy_fm_bytes", "file": "dfs/track_fm.cc",
+     "anchor": r"bool copy_fm_bytes\(const Track::BitStream& bits, size_t& thisbit,\s*size_t n, std::vector<Track::byte>\* out,\s*bool verbose\)",
+     "sig": "static bool copy_fm_bytes(const struct BitStream *bits, size_t *thisbit_, size_t n, struct decvec *out)",
+     "pre": "#define thisbit (*thisbit_)\n", "post": "#undef thisbit\n",
+     "rules": [(r"auto clock_and_data = read_byte\(bits, thisbit\);", "struct opt_cd clock_and_data = fm_read_byte(bits, &thisbit);", 1),
+               (VERBOSE_NESTED[0], "{ g_diag++; }  /* verbose diagnostics dropped; the failure is counted */", "=0or1"),
+               (r"clock_and_data && clock_and_data->first == Track::normal_fm_clock", "clock_and_data.has && clock_and_data.first == normal_fm_clock", ">=0"),
+               (r"clock_and_data->(first|second)", r"clock_and_data.\1", ">=1"), (r"Track::normal_fm_clock", "normal_fm_clock", ">=0"),
+               (r"\(clock_and_data\b(?!\.)", "(clock_and_data.has", ">=0"),
+               (r"out->push_back\(([^;]*)\);", r"decvec_push(out, \1);", 1),
+               (r"(while \(n--\))", r"\1 COPY_FM_LOOP_CONTRACT", 1)]})
+add({"name": "fm_get_crc", "file": "dfs/track_fm.cc", "anchor": r"unsigned long get_crc\(const std::vector<Track::byte>& data\)",
+     "sig": "static unsigned long fm_get_crc(const struct decvec *data)",
+     "rules": [(r"DFS::CCITT_CRC16 crc;", "struct CRC16Base crc; crc.crc_ = CCITT_CRC16_init();", 1),
+               (r"crc\.update\(", "CRC16Base_update(&crc, ", ">=1"), (r"crc\.get\(\)", "CRC16Base_get(&crc)", ">=1"),
+               (r"data\.data\(\)", "h_vec_store", ">=1"), (r"data\.size\(\)", "data->n", ">=1")]})
+add({"name": "fm_find_record_address_mark", "file": "dfs/track_fm.cc",
+     "anchor": r"\[&thisbit, &bits, bits_avail\]\(\) -> std::optional<unsigned int>",
+     "sig": "static struct opt_uint fm_find_record_address_mark(size_t *thisbit_, const struct BitStream *bits, size_t bits_avail)",
+     "pre": "#define thisbit (*thisbit_)\n", "post": "#undef thisbit\n",
+     "rules": [(r"auto found = bits\.scan_for\(", "struct opt_scan found = BitStream_scan_for(bits, ", 1),
+               (r"if \(!found\)", "if (!found.has)", 1), (r"found->(first|second)", r"found.\1", ">=3"),
+               (r"return found\.second;", "{ struct opt_uint some_; some_.has = 1; some_.val = (unsigned int)found.second; return some_; }", 1),
+               (r"return std::nullopt;", "{ struct opt_uint none_; none_.has = 0; none_.val = 0; return none_; }", 1),
+               (r"(while \(thisbit < bits_avail\))", r"\1 FM_FIND_LOOP_CONTRACT", 1)]})
+add({"name": "decode_fm_track", "file": "dfs/track_fm.cc",
+     "anchor": r"std::vector<Sector> decode_fm_track\(const BitStream& bits, bool verbose\)",
+     "sig": "static void decode_fm_track(const struct BitStream *bits)",
+     "rules": [(r"self_test_crc\(\);", "/* self_test_crc(): asserts only (C19) */", "=0or1"),
+               (r"std::vector<Sector> result;", "/* result: every push_back is monitored */", 1),
+               (r"auto find_record_address_mark =\s*\[&thisbit, &bits, bits_avail\]\(\) -> std::optional<unsigned int>\s*\{.*?\n\s*\};",
+                "/* lambda find_record_address_mark: extracted separately (fm_find_record_address_mark) */", 1),
+               (r"bits\.size\(\)", "BitStream_size(bits)", ">=1"),
+               (r"enum class DecodeState", "enum DecodeState", 1), (r"DecodeState::", "", ">=1"),
+               (r"\bSector sec;", "struct FmSector sec; fmsector_init(&sec);", 1),
+               (r"auto found = bits\.scan_for\(", "struct opt_scan found = BitStream_scan_for_v(bits, ", 1),
+               (r"std::optional<unsigned int> found = find_record_address_mark\(\);", "struct opt_uint found = fm_find_record_address_mark_v(&thisbit, bits, bits_avail);", 1),
+               (r"if \(!found\)", "if (!found.has)", ">=1"), (r"found->first", "found.first", ">=1"), (r"\*found\b", "found.val", ">=1"),
+               (r"std::string error;", "/* error text dropped */", ">=0"),
+               (r"std::vector<byte> (\w+);", r"struct decvec \1; decvec_init(&\1);", ">=1"),
+               (r"id\.push_back\(byte\(([^;]*)\)\);", r"decvec_push_v(&id, (byte)(\1));", ">=0"),
+               (VERBOSE_NESTED[0], VERBOSE_NESTED[1], ">=0"), (VERBOSE_STMT[0], VERBOSE_STMT[1], ">=0"),
+               (r"copy_fm_bytes\(bits, thisbit, ([^;]*?),\s*&([\w.]+),\s*verbose\)", r"copy_fm_bytes_v(bits, &thisbit, \1, &\2)", ">=1"),
+               (r"const auto addr_crc = get_crc\((\w+)\);", r"const unsigned long addr_crc = fm_get_crc_v(&\1);", "=0or1"),
+               (r"const (?:byte|unsigned char|Track::byte) addr_crc = get_crc\((\w+)\);", r"const byte addr_crc = (byte)fm_get_crc_v(&\1);", "=0or1"),
+               (r"decode_sector_address_and_size\((\w+)\.data\(\), ([^;]*?),\s*error\)", r"decode_sector_address_and_size_v(&\1, \2)", ">=1"),
+               (r"sec\.data\.resize\(([^;]*)\);", r"decvec_resize(&sec.data, \1);", ">=0"), (r"sec\.data\.clear\(\);", "decvec_clear(&sec.data);", ">=0"),
+               (r"byte data_mark\[1\] =\s*\{\s*byte\(([^;]*)\)\s*\};", r"byte data_mark[1] = { (byte)(\1) };", 1),
+               (r"DFS::CCITT_CRC16 crc;", "struct crcmodel crc; crcm_init(&crc);", 1),
+               (r"sec\.data\.data\(\)", "h_vec_store", ">=0"),
+               (r"crc\.update\(([^;]*)\);", r"crcm_update(&crc, \1);", ">=1"),
+               (r"auto data_crc = crc\.get\(\);", "unsigned long data_crc = crcm_get(&crc);", 1),
+               (r"sec\.data\[([^\]]*)\]", r"DECVEC_AT(&sec.data, \1)", ">=0"),
+               (r"result\.push_back\(sec\);", "mon_push_sector_fm(&sec);", ">=1"),
+               (r'std::cerr << "Dropping the control record\\n";', "g_diag++;", "=0or1"),
+               (r"return result;", "return;", 1),
+               (r"(while \(thisbit < bits_avail\))", r"\1 FM_DECODE_LOOP_CONTRACT", 1)],
+     "dropped": ["verbose diagnostics", "error strings", "the result vector itself: each push_back is checked by the monitor"]})
+
 # ---- img_mmb.cc (C04): the slot loop of the MmbFile constructor ------------------------------------------
 add({"name": "MmbFile_ctor", "file": "dfs/img_mmb.cc",
      "anchor": r"explicit MmbFile\(const std::string& name, bool compressed,\s*std::unique_ptr<DFS::FileAccess>&& file\)\s*: ViewFile\(name, std::move\(file\)\)",
